@@ -3132,7 +3132,7 @@ template< size_t L>
       return std::string::npos;
    for (size_t idx = pos; idx < mLength; ++idx)
    {
-      if (::strchr( str, mString[ idx]) != nullptr)
+      if (::memchr( str, mString[ idx], count) != nullptr)
          return idx;
    } // end for
    return std::string::npos;
@@ -3204,7 +3204,7 @@ template< size_t L>
       return std::string::npos;
    for (size_t idx = pos; idx < mLength; ++idx)
    {
-      if (::strchr( str, mString[ idx]) == nullptr)
+      if (::memchr( str, mString[ idx], count) == nullptr)
          return idx;
    } // end for
    return std::string::npos;
@@ -3287,7 +3287,7 @@ template< size_t L>
       return std::string::npos;
    for (size_t idx = pos; idx-- > 0; )
    {
-      if (::strchr( str, mString[ idx]) != nullptr)
+      if (::memchr( str, mString[ idx], count) != nullptr)
          return idx;
    } // end for
    return std::string::npos;
@@ -3374,7 +3374,7 @@ template< size_t L>
       return std::string::npos;
    for (size_t idx = pos; idx-- > 0; )
    {
-      if (::strchr( str, mString[ idx]) == nullptr)
+      if (::memchr( str, mString[ idx], count) == nullptr)
          return idx;
    } // end for
    return std::string::npos;
